@@ -96,9 +96,10 @@ Record sp_state := mkSp {
   sp_hist : list (mac * option ip4);
   sp_closed : bool;
   sp_failing : bool;                  (* the connection may refuse writes *)
-  sp_loops : list (mac * sphase)
+  sp_loops : list (mac * sphase);
+  sp_rxq : list arp_pkt               (* who-has-router requests of hunted MACs whose reply is decided, not yet written *)
 }.
-Definition sp_init : sp_state := mkSp [] [] false false [].
+Definition sp_init : sp_state := mkSp [] [] false false [] [].
 
 Inductive viol := VConfined | VProbeReject | VSpoofReply | VStopUndone | VCloseStops | VIdempotent
                 | VPeriodic | VOther.
@@ -114,26 +115,25 @@ Definition sp_check_own (c : cfg) (s : sp_state) (out : list frame) : list viol 
   ++ (if sp_closed s then silent out VCloseStops else []).
 
 Definition sp_set_phase (i : nat) (m : mac) (p : sphase) (s : sp_state) : sp_state :=
-  mkSp (sp_hunted s) (sp_hist s) (sp_closed s) (sp_failing s) (set_nth i (m, p) (sp_loops s)).
+  mkSp (sp_hunted s) (sp_hist s) (sp_closed s) (sp_failing s) (set_nth i (m, p) (sp_loops s)) (sp_rxq s).
+Definition sp_set_rxq (q : list arp_pkt) (s : sp_state) : sp_state :=
+  mkSp (sp_hunted s) (sp_hist s) (sp_closed s) (sp_failing s) (sp_loops s) q.
 
-(* what a received, valid ARP packet must be answered with *)
-Definition sp_rx (c : cfg) (s : sp_state) (p : arp_pkt) (out : list frame) : list viol :=
-  if sp_closed s then silent out VCloseStops
+(* what a received, valid ARP packet must be answered with at once (the probe-reject), and whether a spoof
+   reply is decided (a who-has-router request from a hunted MAC: the reply is written by RxReply) *)
+Definition sp_rx (c : cfg) (s : sp_state) (p : arp_pkt) (out : list frame) : sp_state * list viol :=
+  if sp_closed s then (s, silent out VCloseStops)
   else if sp_is_probe p then
-    if sp_probe_reject_due c (sp_hist s) p then
-      match out with
-      | [f] => if sp_is_reply_to c p f && (ftip f =? IP4_BCAST) then [] else [VProbeReject]
-      | [] => if sp_failing s then [] else [VProbeReject]
-      | _ => [VProbeReject]
-      end
-    else silent out VProbeReject
+    (s, if sp_probe_reject_due c (sp_hist s) p then
+          match out with
+          | [f] => if sp_is_reply_to c p f && (ftip f =? IP4_BCAST) then [] else [VProbeReject]
+          | [] => if sp_failing s then [] else [VProbeReject]
+          | _ => [VProbeReject]
+          end
+        else silent out VProbeReject)
   else if sp_asks_router c p && mem (psmac p) (sp_hunted s) then
-    match out with
-    | [f] => if sp_is_reply_to c p f && (ftip f =? psip p) then [] else [VSpoofReply]
-    | [] => if sp_failing s then [] else [VSpoofReply]
-    | _ => [VSpoofReply]
-    end
-  else silent out VSpoofReply.
+    (sp_set_rxq (sp_rxq s ++ [p]) s, silent out VSpoofReply)
+  else (s, silent out VSpoofReply).
 
 Definition sp_step (c : cfg) (s : sp_state) (e : event) (out : list frame) : sp_state * list viol :=
   match e with
@@ -141,15 +141,15 @@ Definition sp_step (c : cfg) (s : sp_state) (e : event) (out : list frame) : sp_
       (* idempotent per MAC: a hunted MAC gets no second loop; the call itself sends nothing *)
       let v := sp_check_own c s out ++ silent out VIdempotent in
       if mem (amac a) (sp_hunted s) then (s, v)
-      else (mkSp (amac a :: sp_hunted s) (sp_hist s) (sp_closed s) (sp_failing s) (sp_loops s ++ [(amac a, SIdle)]), v)
+      else (mkSp (amac a :: sp_hunted s) (sp_hist s) (sp_closed s) (sp_failing s) (sp_loops s ++ [(amac a, SIdle)]) (sp_rxq s), v)
   | StartHuntInvalid => (s, sp_check_own c s out ++ silent out VOther)
   | StopHunt m =>
-      (mkSp (filter (fun x => negb (x =? m)) (sp_hunted s)) (sp_hist s) (sp_closed s) (sp_failing s) (sp_loops s),
+      (mkSp (filter (fun x => negb (x =? m)) (sp_hunted s)) (sp_hist s) (sp_closed s) (sp_failing s) (sp_loops s) (sp_rxq s),
        sp_check_own c s out)
-  | Close => (mkSp (sp_hunted s) (sp_hist s) true (sp_failing s) (sp_loops s), sp_check_own c s out)
-  | SetOffer m o => (mkSp (sp_hunted s) ((m, o) :: sp_hist s) (sp_closed s) (sp_failing s) (sp_loops s), sp_check_own c s out)
+  | Close => (mkSp (sp_hunted s) (sp_hist s) true (sp_failing s) (sp_loops s) (sp_rxq s), sp_check_own c s out)
+  | SetOffer m o => (mkSp (sp_hunted s) ((m, o) :: sp_hist s) (sp_closed s) (sp_failing s) (sp_loops s) (sp_rxq s), sp_check_own c s out)
   | FailWrites k =>
-      (mkSp (sp_hunted s) (sp_hist s) (sp_closed s) (match k with O => false | _ => true end) (sp_loops s),
+      (mkSp (sp_hunted s) (sp_hist s) (sp_closed s) (match k with O => false | _ => true end) (sp_loops s) (sp_rxq s),
        sp_check_own c s out)
   | Lookup i =>
       (* the loop looks its MAC up (under the lock): this is where the iteration's frame is decided *)
@@ -184,12 +184,25 @@ Definition sp_step (c : cfg) (s : sp_state) (e : event) (out : list frame) : sp_
       | Some (m, SDone) => (s, silent out VStopUndone)     (* a terminated loop sends nothing any more *)
       | _ => (s, silent out VOther)
       end
-  | RxArp p => (s, sp_rx c s p out)
+  | RxArp p => sp_rx c s p out
   | RxRaw et b =>
       match sp_decode et b with
-      | Some p => (s, sp_rx c s p out)
+      | Some p => sp_rx c s p out
       | None => (s, silent out VOther)                     (* not a valid ARP packet: ignored *)
       end
+  | RxReply k =>
+      (* the reply decided for the k-th request in flight: to that MAC, claiming the router address *)
+      match nth_error (sp_rxq s) k with
+      | Some p =>
+          (sp_set_rxq (remove_nth k (sp_rxq s)) s,
+           match out with
+           | [f] => if sp_is_reply_to c p f && (ftip f =? psip p) then [] else [VSpoofReply]
+           | [] => if sp_failing s then [] else [VSpoofReply]
+           | _ => [VSpoofReply]
+           end)
+      | None => (s, silent out VSpoofReply)
+      end
+  | ApiInvalid => (s, silent out VOther)                   (* unusable arguments: error, nothing written *)
   | _ =>
       (* public send API: whatever it sends is the caller's call, but it must not forge on its own *)
       (s, if sp_caller_forged c e || forallb (fun f => negb (sp_forged c f)) out then [] else [VConfined])
